@@ -646,36 +646,115 @@ func (c *Ctx) ScatterPartition(prop string) {
 		return
 	}
 	e := cnt.e
-	args := goIns.Call.Args
-	if len(args) < 2 {
-		c.R.Unknown(rule, Fn(fn), c.Pos(goIns), "the worker is not started with (offset, entries)")
+	// the worker function and the (offset, entries) it hands to the work function, traced back to the go statement's arguments
+	var wf *ssa.Function
+	goArgs := goIns.Call.Args
+	if mc, ok := goIns.Call.Value.(*ssa.MakeClosure); ok {
+		wf = mc.Fn.(*ssa.Function)
+	} else if f := goIns.Call.StaticCallee(); f != nil && f.Blocks != nil && prog.InModule(f) {
+		wf = f
+	}
+	var off, ent ssa.Value
+	if wf != nil {
+		for _, ci := range Calls(wf, func(ci ssa.CallInstruction) bool {
+			cc := ci.Common()
+			if cc.IsInvoke() || cc.StaticCallee() != nil || len(cc.Args) < 2 {
+				return false
+			}
+			_, isB := cc.Value.(*ssa.Builtin)
+			return !isB
+		}) {
+			off, ent = nil, nil
+			for k, q := range wf.Params {
+				if k >= len(goArgs) {
+					break
+				}
+				if ci.Common().Args[0] == ssa.Value(q) {
+					off = goArgs[k]
+				}
+				if ci.Common().Args[1] == ssa.Value(q) {
+					ent = goArgs[k]
+				}
+			}
+		}
+	}
+	if off == nil || ent == nil {
+		c.R.Fail(rule, Fn(fn)+":pass", c.Pos(goIns), "the worker does not call the work function with the offset and entries it was started with", "work(offset, entries, ...)", nil)
 		return
 	}
-	off, ent := args[0], args[1]
+	// offset and entries may be the two results of a module helper: its (single) return is read with the helper's
+	// parameters replaced by the arguments
+	env := map[ssa.Value]ssa.Value{}
+	rv := func(v ssa.Value) ssa.Value {
+		for i := 0; i < 4; i++ {
+			if m, ok := env[v]; ok {
+				v = m
+				continue
+			}
+			ex, ok := v.(*ssa.Extract)
+			if !ok {
+				return v
+			}
+			call, ok := ex.Tuple.(*ssa.Call)
+			if !ok || call.Call.IsInvoke() {
+				return v
+			}
+			h := call.Call.StaticCallee()
+			if h == nil || !prog.InModule(h) || h.Blocks == nil {
+				return v
+			}
+			rets := an.Returns(h)
+			if len(rets) != 1 || ex.Index >= len(rets[0].Results) {
+				return v
+			}
+			for k, q := range h.Params {
+				if k < len(call.Call.Args) {
+					env[q] = call.Call.Args[k]
+				}
+			}
+			v = an.Result(rets[0], ex.Index)
+		}
+		return v
+	}
+	off, ent = rv(off), rv(ent)
 	okOff := false
 	if spawn.stepped {
 		okOff = off == spawn.idx
 	} else if m, ok := off.(*ssa.BinOp); ok && m.Op == token.MUL {
-		okOff = (m.X == spawn.idx && m.Y == e) || (m.Y == spawn.idx && m.X == e)
+		x, y := rv(m.X), rv(m.Y)
+		okOff = (x == spawn.idx && y == e) || (y == spawn.idx && x == e)
 	}
 	if !okOff {
 		c.R.Fail(rule, Fn(fn)+":offset", c.Pos(goIns), "worker w is not started at offset w*extent: "+an.Term(off), "offset = worker * extentSize", nil)
 		return
 	}
+	sameOff := func(v ssa.Value) bool {
+		v = rv(v)
+		if v == off {
+			return true
+		}
+		// the same product computed again
+		m1, ok1 := v.(*ssa.BinOp)
+		m2, ok2 := off.(*ssa.BinOp)
+		if ok1 && ok2 && m1.Op == token.MUL && m2.Op == token.MUL {
+			return (rv(m1.X) == rv(m2.X) && rv(m1.Y) == rv(m2.Y)) || (rv(m1.X) == rv(m2.Y) && rv(m1.Y) == rv(m2.X))
+		}
+		return false
+	}
 	isRest := func(v ssa.Value) bool {
-		sub, ok := v.(*ssa.BinOp)
-		return ok && sub.Op == token.SUB && sub.X == nP && sub.Y == off
+		sub, ok := rv(v).(*ssa.BinOp)
+		return ok && sub.Op == token.SUB && rv(sub.X) == nP && sameOff(sub.Y)
 	}
 	okEnt := false
 	switch x := ent.(type) {
 	case *ssa.Call:
 		if isBuiltin(x, "min") && len(x.Call.Args) == 2 {
-			okEnt = (x.Call.Args[0] == e && isRest(x.Call.Args[1])) || (x.Call.Args[1] == e && isRest(x.Call.Args[0]))
+			okEnt = (rv(x.Call.Args[0]) == e && isRest(x.Call.Args[1])) || (rv(x.Call.Args[1]) == e && isRest(x.Call.Args[0]))
 		}
 	case *ssa.Phi:
 		if len(x.Edges) == 2 {
 			for k := 0; k < 2; k++ {
-				if x.Edges[k] != e || !isRest(x.Edges[1-k]) {
+				if rv(x.Edges[k]) != e || !isRest(x.Edges[1-k]) {
 					continue
 				}
 				// the rest edge is taken exactly when offset+e exceeds (or reaches) inputLen
@@ -685,11 +764,11 @@ func (c *Ctx) ScatterPartition(prop string) {
 					continue
 				}
 				cmp, ok := iff.Cond.(*ssa.BinOp)
-				if !ok || (cmp.Op != token.GTR && cmp.Op != token.GEQ) || cmp.Y != nP {
+				if !ok || (cmp.Op != token.GTR && cmp.Op != token.GEQ) || rv(cmp.Y) != nP {
 					continue
 				}
 				add, ok := cmp.X.(*ssa.BinOp)
-				if ok && add.Op == token.ADD && ((add.X == off && add.Y == e) || (add.Y == off && add.X == e)) {
+				if ok && add.Op == token.ADD && ((sameOff(add.X) && rv(add.Y) == e) || (sameOff(add.Y) && rv(add.X) == e)) {
 					okEnt = true
 				}
 			}
@@ -697,29 +776,6 @@ func (c *Ctx) ScatterPartition(prop string) {
 	}
 	if !okEnt {
 		c.R.Fail(rule, Fn(fn)+":entries", c.Pos(goIns), "the number of entries given to a worker is not min(extent, inputLen-offset): "+an.Term(ent), "entries = extentSize, or inputLen-offset for the last worker", nil)
-		return
-	}
-	// the worker passes its (offset, entries) to the work function unchanged
-	var wf *ssa.Function
-	if mc, ok := goIns.Call.Value.(*ssa.MakeClosure); ok {
-		wf = mc.Fn.(*ssa.Function)
-	} else if f := goIns.Call.StaticCallee(); f != nil && f.Blocks != nil {
-		wf = f
-	}
-	okPass := false
-	if wf != nil && len(wf.Params) >= 2 {
-		for _, ci := range Calls(wf, func(ci ssa.CallInstruction) bool {
-			cc := ci.Common()
-			return !cc.IsInvoke() && cc.StaticCallee() == nil && len(cc.Args) >= 2
-		}) {
-			if _, isB := ci.Common().Value.(*ssa.Builtin); isB {
-				continue
-			}
-			okPass = ci.Common().Args[0] == ssa.Value(wf.Params[0]) && ci.Common().Args[1] == ssa.Value(wf.Params[1])
-		}
-	}
-	if !okPass {
-		c.R.Fail(rule, Fn(fn)+":pass", c.Pos(goIns), "the worker does not call the work function with the offset and entries it was started with", "work(offset, entries, ...)", nil)
 		return
 	}
 	c.R.OK(rule, Fn(fn), c.P.FuncPos(fn), "ceil(inputLen/e) workers; worker w gets offset w*e and min(e, inputLen-offset) entries and hands them to the work function: the extents partition [0, inputLen)")
